@@ -138,6 +138,8 @@ class Canon:
             return None
         if f.get("impl_trait") or f.get("derived"):
             return None          # (a NEW public method is as transparent as a private one: what was known is excluded above)
+        if f.get("kind") == "AssocFn" and not f.get("impl_self"):
+            return None          # a provided method of a trait: an impl may override it, the default body says nothing about the call
         if any(p.get("k") != "Bind" or p.get("byref") for p in f.get("params", [])):
             return None
         body = f.get("body")
